@@ -458,7 +458,9 @@ func (p *Program) externalModSet(sig *types.Signature, args []*SVal, invoke bool
 		switch kindOf(t) {
 		case KChan:
 			// it may take values from a channel it is handed
-			ms.names[recvHeap] = recvSort
+			for k, v := range chanGhostNames() {
+				ms.names[k] = v
+			}
 		case KSlice:
 			p.sliceElemNames(ms, t)
 		case KPtr:
@@ -513,10 +515,14 @@ func (p *Program) instrMods(ms *modSet, fn *ssa.Function, ins ssa.Instruction, d
 		}
 		p.addrNames(ms, x.Addr, x.Addr.Type().Underlying().(*types.Pointer).Elem())
 	case *ssa.Select:
-		ms.names[recvHeap] = recvSort
+		for k, v := range chanGhostNames() {
+			ms.names[k] = v
+		}
 	case *ssa.UnOp:
 		if x.Op == token.ARROW {
-			ms.names[recvHeap] = recvSort
+			for k, v := range chanGhostNames() {
+				ms.names[k] = v
+			}
 		}
 	case *ssa.MapUpdate:
 		p.mapNames(ms, x.Map.Type().Underlying().(*types.Map))
